@@ -384,8 +384,29 @@ func (e *Exec) external(fr *Frame, st State, fn *ssa.Function, args []Val, pos t
 		s3, ev := e.freshError(st.branch(c.Not(okc)), "enc")
 		errOut := Outcome{st: s3, ret: Val{c.Const(64, 0), c.Const(64, 0), c.Const(64, 0), ev[0], ev[1]}}
 		return []Outcome{okOut, errOut}
-	case "math.Float32bits", "math.Float32frombits", "math.Float64bits", "math.Float64frombits":
-		return []Outcome{{st: st, ret: args[0]}}
+	case "math.Float32bits", "math.Float64bits":
+		return []Outcome{{st: st, ret: Val{e.fpToBits(args[0][0])}}}
+	case "math.Float32frombits", "math.Float64frombits":
+		return []Outcome{{st: st, ret: Val{e.fpFromBits(args[0][0])}}}
+	case "(encoding/binary.bigEndian).Uint16", "(encoding/binary.bigEndian).Uint32", "(encoding/binary.bigEndian).Uint64":
+		n := map[string]int{"Uint16": 2, "Uint32": 4, "Uint64": 8}[fn.Name()]
+		b := args[1]
+		st = e.oblige(st, fr.fn, "nopanic.index", "", pos, c.Ule(c.Const(64, uint64(n)), b[1]))
+		r := c.Const(n*8, 0)
+		for i := 0; i < n; i++ {
+			by := e.read(st.h[0], c.Add(b[0], c.Const(64, uint64(i))))
+			r = c.BvOr(r, c.Shl(c.Zext(by, n*8), c.Const(n*8, uint64(8*(n-1-i)))))
+		}
+		return []Outcome{{st: st, ret: Val{r}}}
+	case "(encoding/binary.bigEndian).PutUint16", "(encoding/binary.bigEndian).PutUint32", "(encoding/binary.bigEndian).PutUint64":
+		n := map[string]int{"PutUint16": 2, "PutUint32": 4, "PutUint64": 8}[fn.Name()]
+		b, v := args[1], args[2][0]
+		st = e.oblige(st, fr.fn, "nopanic.index", "", pos, c.Ule(c.Const(64, uint64(n)), b[1]))
+		for i := 0; i < n; i++ {
+			by := c.Extract(8*(n-1-i)+7, 8*(n-1-i), v)
+			st.h[0] = e.store(st.h[0], c.Add(b[0], c.Const(64, uint64(i))), by)
+		}
+		return []Outcome{{st: st}}
 	}
 	if r, ok := e.externalEnv(fr, st, fn, args, pos); ok {
 		return r
